@@ -227,12 +227,11 @@ theorem scan1_print (cfg : Cfg) (t : Tok) (rest : List Char)
     · cases hr : cfg.raw <;> simp [callback, Tok.denote, hr, Tok.print]
   | named n =>
     obtain ⟨hb, hn⟩ := hwf
+    have hraw : cfg.raw = true := by simpa [adjOK] using hadj
     have hsb := splitBrace_append n rest hn
     refine ⟨.named n, ?_, ?_⟩
-    · simp [Tok.print, scan1, simpleSet, hb, octVal?, hsb]
-    · cases hr : cfg.raw
-      · simp [callback, Tok.denote, hr, Tok.print]
-      · cases hl : cfg.lookup n <;> simp [callback, Tok.denote, hr, hl]
+    · simp [Tok.print, scan1, simpleSet, hb, octVal?, hsb, hraw]
+    · cases hl : cfg.lookup n <;> simp [callback, Tok.denote, hraw, hl]
   | other c =>
     obtain ⟨h1, h2, h3, h4⟩ := hwf
     unfold isOct at h2
@@ -254,18 +253,24 @@ theorem scan1_print (cfg : Cfg) (t : Tok) (rest : List Char)
     · rcases hwf with rfl | ⟨hb, rfl | rfl | rfl⟩
       · have : takeHex cfg 2 0 rest = none := by simpa [adjOK] using hadj
         cases hb : cfg.isBytes <;> simp [Tok.print, scan1, simpleSet, this, hb]
-      · have hnb : noBraceAhead rest := by simpa [adjOK] using hadj
-        cases rest with
-        | nil => simp [Tok.print, scan1, simpleSet, hb, octVal?]
-        | cons c r =>
-          by_cases hc : c = '{'
-          · subst hc
-            have : splitBrace r = none := hnb
-            simp [Tok.print, scan1, simpleSet, hb, octVal?, this]
-          · simp only [Tok.print, List.cons_append, List.nil_append]
-            unfold scan1
-            simp [simpleSet, hb, octVal?]
-            split <;> simp_all
+      · cases hraw : cfg.raw with
+        | false =>
+          -- without RAWCHARS the `\N{…}` alternative does not exist: `\N` is read on its own whatever follows
+          simp [Tok.print, scan1, simpleSet, hb, octVal?, hraw]
+        | true =>
+          have hnb : noBraceAhead rest := by
+            have := hadj; simp only [adjOK] at this; simpa [hraw] using this
+          cases rest with
+          | nil => simp [Tok.print, scan1, simpleSet, hb, octVal?]
+          | cons c r =>
+            by_cases hc : c = '{'
+            · subst hc
+              have : splitBrace r = none := hnb
+              simp [Tok.print, scan1, simpleSet, hb, octVal?, this]
+            · simp only [Tok.print, List.cons_append, List.nil_append]
+              unfold scan1
+              simp [simpleSet, hb, octVal?]
+              split <;> simp_all
       · have : takeHex cfg 8 0 rest = none := by simpa [adjOK] using hadj
         simp [Tok.print, scan1, simpleSet, this, hb]
       · have : takeHex cfg 4 0 rest = none := by simpa [adjOK] using hadj
